@@ -91,7 +91,7 @@ def run(tier, seed):
         if not TR.has_time(base["ops"]):
             variants.append(["time shift", TR.shift_time(base, gen.Fraction(rng.choice([3, 7, -5]), rng.choice([1, 2])))])
         kinds = {o["kind"] for o in base["ops"] if o["op"] == "flow"}
-        k = rng.choice(["2", "3", "1/2", "1/1024"])      # (1/1024: mixing categories hold less than one person)
+        k = rng.choice(["2", "3", "1/2", "1/1024", "1/1099511627776"])      # (1/1024: mixing categories hold less than one person; 2^-40: populations given as tiny proportions)
         if not TR.scalable(base):
             pass
         elif "infection_density" in kinds and "infection_frequency" not in kinds:
